@@ -154,27 +154,36 @@ Print Assumptions c20_deploy_pool_own_key.
    any script - the key an entity's backend holds and the certificate the entity publishes are ONE pair: both are
    read, at one moment, from the files one and the same configuration names *)
 Theorem c20_source_key_is_cert :
-  forall d, deploy_keys d = deploy_certs d /\ deploy_keys_v0 d = deploy_certs_v0 d.
+  forall d, deploy_keys d = deploy_certs d /\ deploy_keys_v1 d = deploy_certs_v1 d /\ deploy_keys_v0 d = deploy_certs_v0 d.
 Proof. exact deploy_keys_certs_both. Qed.
 Print Assumptions c20_source_key_is_cert.
 
-(* THE KEY AN ENTITY SIGNS WITH IS A KEY ITS OWN CONFIGURATION SOURCE NAMES.  For every script in which every
-   configuration file asked for exists - same or different base names in the same or different directories, loaded
-   in any order, any number of times, through any entry point and spelling, edited or removed and rewritten in
-   between - every entity holds a pair that its own source accounts for: the dict / Config object it was built from,
-   or, for a file, a path that VERY file has named (module table keyed by base name, checked against the file asked
-   for: Model.load_module).  Never another tenant's. *)
+(* THE KEY AN ENTITY SIGNS WITH IS A KEY ITS OWN CONFIGURATION SOURCE NAMES.  For every script - configuration
+   files and package directories of the same or different base names in the same or different directories, loaded in
+   any order, any number of times, through any entry point and spelling, edited or removed and rewritten in between,
+   THERE OR NOT (a load of a file that is not there fails since 581b4f03: a slot without entity) - every entity holds
+   a pair that its own source accounts for: the dict / Config object it was built from, or, for a file, a path that
+   VERY file (package) has named (module table keyed by base name, checked against the file asked for:
+   Model.load_module).  Never another tenant's.  The one hypothesis left: a file asked for by its BARE name - no
+   directory given - is there (a bare name that finds no file in the working directory is answered, as ever, by
+   whatever module of that name Python finds: c20_loader_bare_missing_refuted) *)
 Theorem c20_source_own_key :
-  forall d, files_present d = true -> own_source (accounted d) (deploy_keys d).
+  forall d, bare_present d = true -> own_source (accounted d) (deploy_keys d).
 Proof. exact deploy_own_source_keys. Qed.
 Print Assumptions c20_source_own_key.
+
+(* without hypothesis for scripts that give a directory with every file name *)
+Theorem c20_source_own_key_no_bare :
+  forall d, no_bare d = true -> own_source (accounted d) (deploy_keys d).
+Proof. exact deploy_own_source_no_bare. Qed.
+Print Assumptions c20_source_own_key_no_bare.
 
 (* ... and the whole process satisfies the property with respect to the certificates the entities hold *)
 Theorem c20_source_pool_own_key :
   forall (sigv : Type) (sign : nat -> nat -> payload -> sigv) (verify : nat -> nat -> payload -> sigv -> bool),
     (forall k d p k' d' p', verify k' d' p' (sign k d p) = true <-> k' = k /\ d' = d /\ p' = p) ->
     forall d g ps ws wsched,
-      files_present d = true ->
+      bare_present d = true ->
       own_source (accounted d) (deploy_certs d) /\
       spec sigv verify {| keys := deploy_certs d; gon := g; progs := ps; sched := wsched |}
            (observe_all sigv verify (deploy_certs d) (outs sigv (dfinal sigv sign verify d g ps ws wsched))).
@@ -195,12 +204,19 @@ Theorem c20_loader_v0_refuted :
 Proof. exact loader_v0_refuted. Qed.
 Print Assumptions c20_loader_v0_refuted.
 
-(* the loader AS IT IS violates it when a configuration file that does not exist is asked for (finding C20-F3, open):
-   the hypothesis files_present of c20_source_own_key cannot be dropped *)
-Theorem c20_loader_missing_refuted :
+(* the loader BEFORE 581b4f03 (after ca0d12ee) violated it when a configuration file that does not exist was asked
+   for (finding C20-F3): the entity was a clone of the tenant whose module of that name had been loaded *)
+Theorem c20_loader_missing_v1_refuted :
+  exists d, bare_present d = true /\ ~ own_source (accounted d) (deploy_certs_v1 d).
+Proof. exact loader_missing_v1_refuted. Qed.
+Print Assumptions c20_loader_missing_v1_refuted.
+
+(* what remains of it in the loader AS IT IS: a file asked for by its bare name that is not there - the hypothesis
+   bare_present of c20_source_own_key cannot be dropped *)
+Theorem c20_loader_bare_missing_refuted :
   exists d, ~ own_source (accounted d) (deploy_certs d).
-Proof. exact loader_missing_refuted. Qed.
-Print Assumptions c20_loader_missing_refuted.
+Proof. exact loader_bare_missing_refuted. Qed.
+Print Assumptions c20_loader_bare_missing_refuted.
 
 (* the loader AS IT IS answers a file that was edited after its first load from sys.modules: the entity built
    afterwards holds a pair its own file named BEFORE (c20_source_own_key covers it), not the one it names now - the
@@ -314,51 +330,54 @@ Theorem c20_source2_config_getattr_context : forall c f nm ctx,
 Proof. exact src2_config_getattr_context. Qed.
 Print Assumptions c20_source2_config_getattr_context.
 
-(* config.Config._load (the loader of python configuration files, after ca0d12ee) for EVERY loader state st
-   (configuration files on disk, sys.modules, directories left on sys.path), every directory d and base name b:
-   the module handed back is Source2.load_which st d b - the module import_module found (sys.modules keyed by the
-   base name, then sys.path with d in front) unless the file asked for exists and is ANOTHER file: then that file as
-   it is now; ModuleNotFoundError / FileNotFoundError otherwise - and its CONFIG is what Model.load_module says
-   (c20_source2_load_which).  Reverse-applying ca0d12ee makes this theorem fail. *)
+(* config.Config._load (the loader of python configuration files, after ca0d12ee and 581b4f03) for EVERY loader state
+   st (configuration files and packages on disk, sys.modules, directories left on sys.path), every directory d - given
+   with a name or bare (head_of d = "") - and base name b: the module handed back is Source2.load_which st d b - the
+   module import_module found (sys.modules keyed by the base name, then sys.path with d in front, package before file)
+   unless the file asked for exists and is ANOTHER file: then that file as it is now; unless the file asked for does
+   not exist, a directory was named and the module found lies outside it: ModuleNotFoundError - and its CONFIG is what
+   Model.load_module V2 says (c20_source2_load_which).  Reverse-applying either commit makes this theorem fail. *)
 Theorem c20_source2_config_load_module :
   forall (path_split abspath isfile module_from_spec : pyval -> pyval)
          (path_insert import_module path_join samefile spec_from_file exec_module : pyval -> pyval -> pyval)
-         (st : lstate) (head_of abs_of base_name : nat -> string) (fil_of file_name : nat -> nat -> string)
+         (st : lstate) (head_of abs_of base_name : nat -> string) (fil_of file_name pkg_name : nat -> nat -> string)
          (config_of : nat -> pyval) (spec_of : nat -> nat -> pyval) (s0 : string) (path_rest : list pyval),
     (forall d b, path_split (PStr (fil_of d b)) = PList [PStr (head_of d); PStr (base_name b)]) ->
     (forall s, path_insert (PInt 0%Z) (PStr s) = PNone) ->
     (forall d b, import_module (PStr (head_of d)) (PStr (base_name b)) =
                  match import_result st d b with
-                 | Some (d0, c0) => enc_mod file_name config_of d0 b c0
+                 | Some (d0, pk0, c0) => enc_mod file_name pkg_name config_of d0 pk0 b c0
                  | None => PExc "ModuleNotFoundError"
                  end) ->
     (forall d, abspath (if py_truthy (PStr (head_of d)) then PStr (head_of d) else PStr ".") = PStr (abs_of d)) ->
+    (forall d pk b, abspath (PStr (mod_file file_name pkg_name d pk b)) = PStr (mod_file file_name pkg_name d pk b)) ->
     (forall d b, path_join (PStr (abs_of d)) (PStr (base_name b ++ ".py")) = PStr (file_name d b)) ->
-    (forall d b, Str.is_empty (file_name d b) = false) ->
+    (forall d pk b, Str.is_empty (mod_file file_name pkg_name d pk b) = false) ->
     (forall d b, isfile (PStr (file_name d b)) =
                  PBool (match cf_read (cfiles st) d b with Some _ => true | None => false end)) ->
-    (forall d0 d b, samefile (PStr (file_name d0 b)) (PStr (file_name d b)) =
-                    match cf_read (cfiles st) d0 b with
-                    | Some _ => PBool (Nat.eqb d0 d)
-                    | None => PExc "FileNotFoundError"
-                    end) ->
+    (forall d0 pk0 d b, samefile (PStr (mod_file file_name pkg_name d0 pk0 b)) (PStr (file_name d b)) =
+                        match cf_read (if pk0 then pkgs st else cfiles st) d0 b with
+                        | Some _ => PBool (negb pk0 && Nat.eqb d0 d)
+                        | None => PExc "FileNotFoundError"
+                        end) ->
+    (forall d0 pk0 d b, Str.startswith (mod_file file_name pkg_name d0 pk0 b) (abs_of d ++ "/") = Nat.eqb d0 d) ->
     (forall d b, spec_from_file (PStr (base_name b)) (PStr (file_name d b)) = spec_of d b) ->
     (forall d b, is_bad (spec_of d b) = false) ->
     (forall d b, module_from_spec (spec_of d b) =
                  match cf_read (cfiles st) d b with
-                 | Some c => enc_mod file_name config_of d b c
+                 | Some c => enc_mod file_name pkg_name config_of d false b c
                  | None => PExc "FileNotFoundError"
                  end) ->
     (forall d b m, exec_module (spec_of d b) m = PNone) ->
     forall self d b,
       src2_config_load_module path_split (PList (PStr s0 :: path_rest)) path_insert import_module abspath path_join isfile
         samefile spec_from_file module_from_spec exec_module self (PStr (fil_of d b))
-      = enc_lres file_name config_of b (load_which st d b).
+      = enc_lres file_name pkg_name config_of b (load_which st d b (Str.is_empty (head_of d))).
 Proof. exact src2_config_load_module_is_model. Qed.
 Print Assumptions c20_source2_config_load_module.
 
 Theorem c20_source2_load_which :
-  forall st d b, lres_content (load_which st d b) = fst (load_module true st d b).
+  forall st d b bare, lres_content (load_which st d b bare) = fst (load_module V2 st d b bare).
 Proof. exact load_which_is_model. Qed.
 Print Assumptions c20_source2_load_which.
 
@@ -367,20 +386,21 @@ Print Assumptions c20_source2_load_which.
 Theorem c20_source2_loaded_load_file :
   forall fs cf st d b a sp r,
     loaded fs cf st (DLoadFile d b a sp :: r)
-    = build_slot fs (lres_content (load_which st d b)) :: loaded fs cf (snd (load_module true st d b)) r.
+    = build_slot fs (lres_content (load_which st d b (is_bare sp)))
+      :: loaded fs cf (snd (load_module V2 st d b (is_bare sp))) r.
 Proof. exact loaded_load_file. Qed.
 Print Assumptions c20_source2_loaded_load_file.
 
 (* config.Config.load_file: the name as it is, or with exactly ".py" cut off, goes to _load; the CONFIG of the module
    handed back is deep-copied and handed to self.load; an exception of the loader comes through *)
 Theorem c20_source2_config_load_file :
-  forall (file_name : nat -> nat -> string) (config_of : nat -> pyval) (deepcopy : pyval -> pyval)
+  forall (file_name pkg_name : nat -> nat -> string) (config_of : nat -> pyval) (deepcopy : pyval -> pyval)
          (config_load load_fn : pyval -> pyval -> pyval),
     (forall c, is_bad (config_of c) = false) -> (forall c, deepcopy (config_of c) = config_of c) ->
     forall self name b r,
-      (endswith name ".py" = false /\ load_fn self (PStr name) = enc_lres file_name config_of b r) \/
+      (endswith name ".py" = false /\ load_fn self (PStr name) = enc_lres file_name pkg_name config_of b r) \/
       (endswith name ".py" = true /\ all_ascii name = true /\ 3 <= String.length name /\
-       load_fn self (PStr (substring 0 (String.length name - 3) name)) = enc_lres file_name config_of b r) ->
+       load_fn self (PStr (substring 0 (String.length name - 3) name)) = enc_lres file_name pkg_name config_of b r) ->
       src2_config_load_file load_fn deepcopy config_load self (PStr name) PNone
       = enc_loaded config_of config_load self b r.
 Proof. exact src2_config_load_file_is_model. Qed.
